@@ -7,9 +7,30 @@ use crate::runner::{catch, finish, last_panic_location, require_counter, run_rec
 use serde_json::{json, Value};
 use std::cmp::Ordering;
 
-pub const CAP: usize = 62;
+use super::c12::LIMB32;
+
+/// Capacity of the fixed-size vector in native limbs: 4000 bits / limb width.
+pub const CAP: usize = if LIMB32 { 125 } else { 62 };
+/// Width and mask of one native limb.  The model is a sequence of native limbs (one model element = one limb of
+/// the crate), so on a 32-bit-limb target (Miri, --target i686) the elements are 32-bit values.
+const LBITS: u32 = if LIMB32 { 32 } else { 64 };
+const LMASK: u64 = if LIMB32 { 0xffff_ffff } else { u64::MAX };
+
+/// The number represented by a sequence of native limbs.
+fn nat_of(v: &[u64]) -> Nat {
+    if LIMB32 {
+        let wide: Vec<u64> = v.chunks(2).map(|c| c[0] | c.get(1).copied().unwrap_or(0) << 32).collect();
+        Nat::from_limbs(&wide)
+    } else {
+        Nat::from_limbs(v)
+    }
+}
 
 fn limb(s: u64) -> u64 {
+    limb64(s) & LMASK
+}
+
+fn limb64(s: u64) -> u64 {
     match s % 11 {
         0 => 0,
         1 => u64::MAX,
@@ -58,7 +79,7 @@ pub fn history(r: &Recipe) -> Vec<VecOp> {
             1 => {
                 let len = match s % 5 {
                     0 => (s >> 8) as usize % 5,
-                    1 => 58 + (s >> 8) as usize % 7, // 58..64: straddles capacity
+                    1 => CAP - 4 + (s >> 8) as usize % 7, // straddles capacity
                     2 => CAP,
                     _ => (s >> 8) as usize % (CAP + 3),
                 };
@@ -114,7 +135,7 @@ pub fn history(r: &Recipe) -> Vec<VecOp> {
             11 => VecOp::Write((s >> 8) as usize, limb(s >> 3)),
             _ => {
                 est = 1;
-                VecOp::FromU64(limb(s >> 3))
+                VecOp::FromU64(limb64(s >> 3))
             }
         };
         ops.push(op);
@@ -129,7 +150,7 @@ struct Model {
 }
 
 fn numeric_cmp(a: &[u64], b: &[u64]) -> Ordering {
-    Nat::from_limbs(a).cmp(&Nat::from_limbs(b))
+    nat_of(a).cmp(&nat_of(b))
 }
 
 fn normalized(v: &[u64]) -> bool {
@@ -224,9 +245,9 @@ pub fn check_history(ops: &[VecOp], cfg: &Cfg, poison: u64, stats: &mut Stats) -
                     let mut carry = *y;
                     let mut i = 0;
                     while carry != 0 && i < m.a.len() {
-                        let (s, c) = m.a[i].overflowing_add(carry);
-                        m.a[i] = s;
-                        carry = c as u64;
+                        let s = m.a[i] as u128 + carry as u128;
+                        m.a[i] = s as u64 & LMASK;
+                        carry = (s >> LBITS) as u64;
                         i += 1;
                     }
                     if carry != 0 {
@@ -242,8 +263,8 @@ pub fn check_history(ops: &[VecOp], cfg: &Cfg, poison: u64, stats: &mut Stats) -
                     let mut carry = 0u128;
                     for l in m.a.iter_mut() {
                         let p = *l as u128 * *y as u128 + carry;
-                        *l = p as u64;
-                        carry = p >> 64;
+                        *l = p as u64 & LMASK;
+                        carry = p >> LBITS;
                     }
                     if carry != 0 {
                         if bounded && m.a.len() >= CAP {
@@ -262,7 +283,12 @@ pub fn check_history(ops: &[VecOp], cfg: &Cfg, poison: u64, stats: &mut Stats) -
                         m.a[*i % n] = *v;
                     }
                 }
-                VecOp::FromU64(v) => m.a = if *v == 0 { vec![] } else { vec![*v] },
+                VecOp::FromU64(v) => {
+                    m.a = if LIMB32 { vec![*v & LMASK, *v >> 32] } else { vec![*v] };
+                    while let Some(&0) = m.a.last() {
+                        m.a.pop();
+                    }
+                }
             }
             if o.ret != expect_ret {
                 return Err(fail(step, format!("return: operation returned {} but the reference sequence says {}", if o.ret == 1 { "Some" } else { "None" }, if expect_ret == 1 { "Some" } else { "None" }), Some(o), &m));
@@ -304,8 +330,8 @@ pub fn check_history(ops: &[VecOp], cfg: &Cfg, poison: u64, stats: &mut Stats) -
         if o.is_normalized != normalized(&m.a) {
             return Err(fail(step, format!("is_normalized: {} vs {}", o.is_normalized, normalized(&m.a)), Some(o), &m));
         }
-        if normalized(&m.a) && o.hi64 != Nat::from_limbs(&m.a).hi64() {
-            return Err(fail(step, format!("hi64: {:?} vs {:?}", o.hi64, Nat::from_limbs(&m.a).hi64()), Some(o), &m));
+        if normalized(&m.a) && o.hi64 != nat_of(&m.a).hi64() {
+            return Err(fail(step, format!("hi64: {:?} vs {:?}", o.hi64, nat_of(&m.a).hi64()), Some(o), &m));
         }
         if o.eq_ab != (m.a == m.b) {
             return Err(fail(step, format!("equality: a == b is {} but reference says {}", o.eq_ab, m.a == m.b), Some(o), &m));
